@@ -41,7 +41,7 @@ BUDGET_S = {'quick': 240, 'thorough': 2400}
 
 FEATS = ('hier', 'abstract', 'unreg', 'extra', 'enum', 'strlike', 'any',
          'untyped', 'date', 'path', 'buf', 'abstract_containers', 'defaults',
-         'multi', 'hooks', 'norecognize', 'seasoned', 'raises')
+         'multi', 'hooks', 'norecognize', 'seasoned', 'raises', 'underscore')
 
 
 @st.composite
@@ -200,7 +200,7 @@ def enum_small(bounds):
     return gen_
 
 
-DEEP = ['P', 'E', 'U2', 'AB', 'V', 'L', 'BF']
+DEEP = ['P', 'E', 'U2', 'AB', 'V', 'L', 'BF', 'DK', 'PR']
 
 
 def phases(tier):
